@@ -229,6 +229,10 @@ pub struct Opts {
     pub max_programs: u64,
     pub multi_template: bool,
     pub loop_controls: bool,
+    /// two more inner leaves: an assignment of a constant to `x` and one to the loop variable /
+    /// macro parameter `i` (stores whose value is known at compile time, at the end of bodies that
+    /// may be skipped or repeated)
+    pub extra_leaves: bool,
 }
 
 const BLOCK_NAMES: &[&str] = &["ba", "bb", "bc", "bd", "be", "bf", "bg", "bh", "bi", "bj", "bk", "bl", "bm", "bn", "bo", "bp"];
@@ -265,6 +269,10 @@ impl Gen {
             Node::Set("x", bin("+", var("x"), Expr::Int(1))),
             Node::Out(var("i")),
         ];
+        if self.opts.extra_leaves {
+            v.push(Node::Set("x", Expr::Int(3)));
+            v.push(Node::Set("i", Expr::Int(0)));
+        }
         if c.in_loop {
             v.push(Node::Out(attr(var("loop"), "index")));
             if self.opts.loop_controls {
@@ -516,7 +524,7 @@ pub struct Multi {
 }
 
 pub fn multi_corpus(stride: u64) -> Vec<Multi> {
-    let g = Gen::new(Opts { depth: 1, max_programs: u64::MAX, multi_template: false, loop_controls: true });
+    let g = Gen::new(Opts { depth: 1, max_programs: u64::MAX, multi_template: false, loop_controls: true, extra_leaves: false });
     let size = g.size();
     let mut out = vec![];
     let mut n = 0;
